@@ -8,6 +8,7 @@ c-memo  caches of compiled right-hand sides are keyed by everything baked into t
 
 c (round 3)  system wiring decided on two model systems with equal body names in one interpreter (module-level state persists):
    each receives the compiled systems of its own mu;  b-stm: the C03 interpretation of _compute_stm re-filed (coherent 42-vector in every direction)
+d-driver / d-filter (round 4)  the driver protocol (C10.d) and the manifold energy filter (C12.e: measure and where it is applied) re-filed: samples come from the segment that contains them; the promised energy tolerance is tested on max|C_i - C_0|/|C_0|
 """
 from __future__ import annotations
 
@@ -102,6 +103,15 @@ def run(tier):
     from .common import Relabel
     c03._stm_layout(Relabel(chk, {"C03.a-layout": "C01.b-stm", "C03.c": "C01.b-stm", "C03": "C01.b-stm"}))
     chk.floor("C01 obligations", chk.obligations, 36 + 42 + 6 + 5)
+    # "constant along every propagated trajectory": every output sample is produced by the step kernels on the segment that contains it (the driver
+    # protocol of C10.d / C02.c: a stale dense-output segment extrapolates and the energy of the samples drifts)
+    from . import c10 as _c10
+    _c10._d_plain_drivers(Relabel(chk, {"C10.d": "C01.d-driver"}), tier)
+    # ... and the tolerance the library promises on that constancy (Manifold.compute(energy_tol=...)) is tested on max|C_i - C_0|/|C_0| of the Jacobi
+    # constant, by the measure function decided above, applied to the propagated states (C12.e re-filed)
+    from . import c12 as _c12
+    _c12._e_energy_measure(Relabel(chk, {"C12.e": "C01.d-filter"}))
+    _c12._bcde_run_compute(Relabel(chk, {"C12.e": "C01.d-filter", "C12.b-select": "C01.d-filter", "C12": "C01.d-filter"}))
     return chk
 
 
